@@ -135,9 +135,10 @@ impl LruPageCache {
                 PAGE_SIZE - offset_in_page
             );
             
-            // Copy data from the page
-            let page_end = offset_in_page + bytes_to_copy;
-            if page_end <= page_data.len() {
+            // Copy data from the page. The last page of a file is shorter than PAGE_SIZE:
+            // a request running past EOF still gets the bytes that exist (short read)
+            let page_end = std::cmp::min(offset_in_page + bytes_to_copy, page_data.len());
+            if offset_in_page < page_end {
                 result_buffer.extend_from_slice(&page_data[offset_in_page..page_end]);
             }
             
@@ -162,9 +163,14 @@ impl LruPageCache {
                 .map_err(|_| ZiporaError::invalid_data("Invalidation tracker lock poisoned".to_string()))?;
             
             if tracker.is_invalidated(&cache_key) {
-                // Page is invalidated, remove from cache and continue to reload
+                // Page is invalidated, remove from cache and continue to reload.
+                // The mark is consumed here (before the reload), otherwise the page
+                // would be dropped and re-read from the file on every later access.
                 drop(tracker);
                 self.remove_from_cache(cache_key)?;
+                self.invalidation_tracker.lock()
+                    .map_err(|_| ZiporaError::invalid_data("Invalidation tracker lock poisoned".to_string()))?
+                    .invalidated_pages.remove(&cache_key);
             }
         }
         
